@@ -77,17 +77,26 @@ func c20Generate(seed int64, idx int) c20Case {
 		depth = rng.Range(1, 6)
 	}
 	twoPkgs := rng.Chance(1, 4)
-	mainFile, libFile := "app/main.go", "lib/lib.go"
+	mainFile, libFile, libImport := "app/main.go", "lib/lib.go", "lib"
+	if rng.Bool() {
+		// the import path of the second package differs from its name; functions and methods are named by the package
+		libImport = core.Pick(rng, []string{"x/lib", "deep/er/lib", "example.com/u/lib"})
+		libFile = libImport + "/lib.go"
+	}
 	c := c20Case{Files: map[string]string{}, Depth: depth}
 	fault := core.Pick(rng, c20Faults)
 	c.Fault, c.MsgHas = fault.name, fault.msgHas
 
+	// files may begin with blank lines and comments: line numbers count from the top of the file
+	for n := rng.Intn(4); n > 0; n-- {
+		g.emit(mainFile, "%s", core.Pick(rng, []string{"", "", "// leading comment"}))
+	}
 	g.emit(mainFile, "package main")
 	g.emit(mainFile, "")
 	g.emit(mainFile, "import (")
 	g.emit(mainFile, "\t\"strings\"")
 	if twoPkgs {
-		g.emit(mainFile, "\t\"lib\"")
+		g.emit(mainFile, "\t%q", libImport)
 	}
 	g.emit(mainFile, ")")
 	g.emit(mainFile, "")
@@ -110,6 +119,9 @@ func c20Generate(seed int64, idx int) c20Case {
 	g.emit(mainFile, "}")
 	g.emit(mainFile, "")
 	if twoPkgs {
+		for n := rng.Intn(4); n > 0; n-- {
+			g.emit(libFile, "")
+		}
 		for _, l := range []string{"package lib", "", "import \"strings\"", "", "type T struct {", "\tN int", "\tP *T", "}", "", "func (t *T) Get() int {", "\treturn t.N", "}", "",
 			"func two(a int, b int) int {", "\treturn a + b + len(strings.TrimSpace(\" \"))", "}", "", "func id(a int) int {", "\treturn a", "}", ""} {
 			if ln := g.emit(libFile, "%s", l); l == "\treturn t.N" {
